@@ -319,7 +319,6 @@ func (c *Caller) InvokeContext(ctx context.Context, id string, name string, args
 			calls = cc.(*callCache)
 		}
 	}
-	calls.Append(newCall(index, name, args))
 	var results *resultMap
 	if rm, ok := c.results.Get(id); ok {
 		results = rm.(*resultMap)
@@ -330,8 +329,12 @@ func (c *Caller) InvokeContext(ctx context.Context, id string, name string, args
 			results = rm.(*resultMap)
 		}
 	}
+	// the place for the answer first, then the call: once the call is in the
+	// cache another invocation's response() may hand it to the provider, and
+	// the answer must find its entry
 	result := make(chan returnValue, 1)
 	results.Set(index, result)
+	calls.Append(newCall(index, name, args))
 	c.response(id)
 	if c.Timeout > 0 {
 		ctx, cancel := context.WithTimeout(ctx, c.Timeout)
